@@ -98,6 +98,7 @@ def run(ctx):
     for i in range(ntrees):
         e = G.tree(rng, rng.choice([1, 2, 4, 8, 20, 60]))
         data = judge_tree(ctx, e, seen)
+        ctx.remember(judge_tree, ctx, e, seen)
         if len(ctx.samples) < 3:
             ctx.samples.append({'expr': e, 'bytes': data.hex() if isinstance(data, bytes) else None})
         if not isinstance(data, bytes):
@@ -124,6 +125,7 @@ def run(ctx):
                       ('len-mismatch', '02000000010000'), ('neg-zero', '0040'), ('empty', ''),
                       ('inner-overrun', '0200000002' + '0100000003616263')]:
         judge_bytes(ctx, bytes.fromhex(hx), klass, None)
+    ctx.run_again()
     ctx.require('forge_calls', 100)
     ctx.require('unforge_calls', 100)
     ctx.require('mutants', 100)
